@@ -608,4 +608,62 @@ theorem LoopInv.run {s0 : St} {T fails : List Path} (D : List Path) (hD : ∀ q 
       _ h1
     simpa [St.run, List.append_assoc] using this
 
+theorem MInv.step {s : Dir} (h : MInv s) (op : Op) (hok : MetaRegOK s op) : MInv (s.step op) := by
+  have hMM : MANAGED ≠ META := by decide
+  cases op with
+  | atomicWrite q b =>
+    obtain ⟨h1, h2⟩ := hok
+    by_cases hq : q = MANAGED
+    · subst hq
+      intro hex
+      have hv : visibleManaged (s.step (.atomicWrite MANAGED b)) = b.refs := by
+        simp [visibleManaged, Dir.step, AtomSt.visible]
+      rw [hv]
+      apply h2 rfl
+      apply h
+      simpa [Dir.step, upd_other _ _ _ _ (Ne.symm hMM)] using hex
+    · intro _
+      rw [visibleManaged_step s _ (fun b' e => hq (by cases e; rfl))]
+      by_cases hm : q = META
+      · exact h1 hm
+      · apply h
+        rename_i hex
+        have hm' : META ≠ q := fun e => hm e.symm
+        simpa [Dir.step, upd_other _ _ _ _ hm'] using hex
+  | syncDir =>
+    intro hex
+    rw [visibleManaged_step s _ (fun b e => by cases e)]
+    apply h
+    simp only [Dir.step, AtomSt.sync] at hex
+    rcases hex with hd | hp
+    · cases hdur : (s.atom META).dur with
+      | some x => exact Or.inl (by simp)
+      | none =>
+        right
+        intro hpe
+        apply hd
+        simp [AtomSt.visible, hpe, hdur]
+    · exact absurd rfl hp
+  | create q => intro hex; rw [visibleManaged_step s _ (fun b e => by cases e)]; exact h (by simpa [Dir.step] using hex)
+  | write q n => intro hex; rw [visibleManaged_step s _ (fun b e => by cases e)]; exact h (by simpa [Dir.step] using hex)
+  | flush q => intro hex; rw [visibleManaged_step s _ (fun b e => by cases e)]; exact h (by simpa [Dir.step] using hex)
+  | terminate q => intro hex; rw [visibleManaged_step s _ (fun b e => by cases e)]; exact h (by simpa [Dir.step] using hex)
+  | delete q => intro hex; rw [visibleManaged_step s _ (fun b e => by cases e)]; exact h (by simpa [Dir.step] using hex)
+  | ack c => intro hex; rw [visibleManaged_step s _ (fun b e => by cases e)]; exact h (by simpa [Dir.step] using hex)
+
+theorem MInv.run {s : Dir} (h : MInv s) (t : List Op) (hd : MetaRegDisc s t) : MInv (s.run t) := by
+  induction t generalizing s with
+  | nil => exact h
+  | cons op t ih =>
+    simp only [Dir.run, List.foldl_cons]
+    exact ih (h.step op hd.1) hd.2
+
+theorem metaRegDisc_take (s : Dir) (t : List Op) (k : Nat) (h : MetaRegDisc s t) : MetaRegDisc s (t.take k) := by
+  induction t generalizing s k with
+  | nil => simpa using h
+  | cons op t ih =>
+    cases k with
+    | zero => trivial
+    | succ k => exact ⟨h.1, ih _ k h.2⟩
+
 end TantivyModel.GC
